@@ -13855,3 +13855,74 @@ func ruleDecodeRefreshesCache(c *Ctx) {
 	}
 	c.Floor("decode-refreshes-cache.decoders", n, 1)
 }
+
+// ruleValidatorsSorted (C01, C19): the validators of the next block are the first N members of the committee *sorted
+// by key*: the order decides the multisignature script, hence NextConsensus, the primary index of every view and the
+// order of the signatures in the block witness. The committee itself is ordered by votes. Every value that is stored
+// into the cached validator lists of the NEO native is a list that went through a sort in the same function, another
+// of the cached lists (or a Copy of it), or nil.
+func ruleValidatorsSorted(c *Ctx) {
+	pk := c.P.Pkg("pkg/core/native")
+	if pk == nil {
+		c.Lost("validators-sorted.anchor", "package native not found")
+		return
+	}
+	info := pk.TypesInfo
+	isValField := func(e ast.Expr) bool {
+		if call, ok := ast.Unparen(e).(*ast.CallExpr); ok && len(call.Args) == 0 {
+			if se, ok := ast.Unparen(call.Fun).(*ast.SelectorExpr); ok && se.Sel.Name == "Copy" {
+				e = se.X
+			}
+		}
+		se, ok := ast.Unparen(e).(*ast.SelectorExpr)
+		return ok && (se.Sel.Name == "nextValidators" || se.Sel.Name == "newEpochNextValidators")
+	}
+	n := 0
+	for _, fd := range c.P.AllFuncDecls() {
+		if fd.Pkg != pk || fd.Decl.Body == nil {
+			continue
+		}
+		ast.Inspect(fd.Decl.Body, func(x ast.Node) bool {
+			as, ok := x.(*ast.AssignStmt)
+			if !ok || len(as.Lhs) != len(as.Rhs) {
+				return true
+			}
+			for i, l := range as.Lhs {
+				se, ok := ast.Unparen(l).(*ast.SelectorExpr)
+				if !ok || (se.Sel.Name != "nextValidators" && se.Sel.Name != "newEpochNextValidators") {
+					continue
+				}
+				if v, ok := info.ObjectOf(se.Sel).(*types.Var); !ok || !v.IsField() {
+					continue
+				}
+				n++
+				key := fmt.Sprintf("validators-sorted:%s.%s#%d", shortSym(FuncKey(fd.Obj)), se.Sel.Name, n)
+				r := as.Rhs[i]
+				good := isNilIdent(info, r) || isValField(r)
+				if id, ok := ast.Unparen(r).(*ast.Ident); ok && !good {
+					o := info.ObjectOf(id)
+					ast.Inspect(fd.Decl.Body, func(y ast.Node) bool {
+						call, ok := y.(*ast.CallExpr)
+						if !ok || len(call.Args) == 0 || call.Pos() > as.Pos() {
+							return true
+						}
+						fn := types.ExprString(call.Fun)
+						if fn == "slices.SortFunc" || fn == "sort.Sort" || fn == "slices.SortStableFunc" || fn == "sort.Slice" {
+							if a, ok := ast.Unparen(call.Args[0]).(*ast.Ident); ok && info.ObjectOf(a) == o {
+								good = true
+							}
+						}
+						return true
+					})
+				}
+				if good {
+					c.OK(key, c.P.Pos(as.Pos()), "the cached validator list is sorted by key (or taken from its sorted sibling)")
+				} else {
+					c.Fail(key, c.P.Pos(as.Pos()), fmt.Sprintf("%s stores `%s` as the cached %s without sorting it by key: the committee is ordered by votes, the validators by key - the order decides the multisignature script, NextConsensus, the primary of every view and the order of signatures in the witness; a node that fills this cache here (start-up) disagrees with the nodes that filled it while processing blocks", shortSym(FuncKey(fd.Obj)), types.ExprString(r), se.Sel.Name))
+				}
+			}
+			return true
+		})
+	}
+	c.Floor("validators-sorted.stores", n, 4)
+}
